@@ -339,6 +339,8 @@ def write_replay(prop, engine, rec, viol, extra=None):
     rp = {"property": prop, "harness": engine, "seed": rec["seed"], "plan": rec.get("plan"),
           "violation_class": viol["class"], "violation": viol["msg"][:4000], "trace_hash": rec.get("trace_hash"),
           "trace_tail": (rec.get("events") or [])[-200:]}
+    if rec.get("_tape_min") is not None:
+        rp["schedule_tape"] = rec["_tape_min"]
     if extra:
         rp.update(extra)
     json.dump(rp, open(path, "w"), indent=1)
@@ -417,8 +419,69 @@ def minimise(binp, prop, tier, engine, rec, viol, tmp, budget_s=150):
             if r is not None:
                 cur, best, progress = cand, r, True
                 break
-    return best, {"attempts": attempts, "seconds": round(time.time() - t0, 1),
-                  "plan_bytes_before": len(json.dumps(plan)), "plan_bytes_after": len(json.dumps(cur))}
+    stats = {"attempts": attempts, "seconds": round(time.time() - t0, 1),
+             "plan_bytes_before": len(json.dumps(plan)), "plan_bytes_after": len(json.dumps(cur))}
+    # ---- schedule tape: shrink towards "lowest task id first" (decision 0). A replay with an explicit
+    # tape takes its scheduling decisions from the tape and 0 once the tape is exhausted; latencies,
+    # stalls and fault draws stay derived from the seed. First the shortest prefix that still fails is
+    # searched, then blocks inside it are zeroed (delta debugging), while the same violation class fires.
+    tape = best.get("tape")
+    if tape and time.time() - t0 < budget_s + 90:
+        t1 = time.time()
+        tape_budget = 90
+
+        def try_tape(tp):
+            nonlocal attempts
+            attempts += 1
+            rpath = os.path.join(tmp, "min-%d.json" % attempts)
+            json.dump({"property": prop, "harness": engine, "seed": rec["seed"], "plan": cur, "schedule_tape": tp}, open(rpath, "w"))
+            out = os.path.join(tmp, "min-%d.jsonl" % attempts)
+            env = dict(GOENV, VERIF_PROP=prop, VERIF_TIER=tier, VERIF_REPLAY=rpath, VERIF_OUT=out, GOMAXPROCS="2")
+            try:
+                subprocess.run([binp, "-test.run", "^TestWorker$", "-test.cpu", "1", "-test.timeout", "0"], env=env, stdout=subprocess.DEVNULL, stderr=subprocess.DEVNULL, timeout=120)
+                r = json.loads(open(out).readline())
+            except Exception:
+                return None
+            for v in r.get("violations") or []:
+                if v["prop"] == prop and v["class"] == viol["class"]:
+                    return r
+            return None
+
+        before = (len(tape), sum(1 for x in tape if x))
+        r0 = try_tape(tape)          # the explicit tape must reproduce the violation at all
+        if r0 is not None:
+            best_t, best_rec = list(tape), r0
+            lo, hi = 0, len(best_t)
+            while lo < hi and time.time() - t1 < tape_budget:
+                mid = (lo + hi) // 2
+                r = try_tape(best_t[:mid])
+                if r is not None:
+                    hi, best_rec = mid, r
+                else:
+                    lo = mid + 1
+            best_t = best_t[:hi]
+            size = max(1, len(best_t) // 2)
+            while size >= 1 and time.time() - t1 < tape_budget:
+                i = 0
+                while i < len(best_t) and time.time() - t1 < tape_budget:
+                    if any(best_t[i:i + size]):
+                        cand = best_t[:i] + [0] * len(best_t[i:i + size]) + best_t[i + size:]
+                        r = try_tape(cand)
+                        if r is not None:
+                            best_t, best_rec = cand, r
+                    i += size
+                if size == 1:
+                    break
+                size //= 2
+            while best_t and best_t[-1] == 0:
+                best_t.pop()
+            best = best_rec
+            best["_tape_min"] = best_t
+            stats["schedule_tape"] = {"decisions_before": before[0], "non_default_before": before[1],
+                                      "decisions_after": len(best_t), "non_default_after": sum(1 for x in best_t if x)}
+        stats["attempts"] = attempts
+        stats["seconds"] = round(time.time() - t0, 1)
+    return best, stats
 
 # --------------------------------------------------------------------------- main
 
